@@ -469,6 +469,7 @@ def main():
             emit(dict(property=CID, kind="tie-mismatch", case=m["case"], event=m["event"], observed=m["observed"], expected=m["expected"],
                       context=m.get("context"), n_mismatching_cases=len(mismatches),
                       what="real scl::Fifo and the extracted Coq machine (FifoDefs.v) disagree cycle-accurately on this schedule; the theorems of Properties_C15.v no longer describe the implementation",
+                      theorems_failed=res["failed"], model_extracts=drv is not None,
                       search=search_info, how_to_replay="checks/C15.py --replay <this file>"), nofail=True, tag="tie")
         elif lat_viol:
             emit(dict(property=CID, kind="configuration", **lat_viol[0], search=search_info), nofail=True, tag="cfg")
